@@ -790,3 +790,15 @@ PROPS["C03"]["kani_units"] = list(PROPS["C03"]["kani_units"]) + ["U47"]
 PROPS["C13"]["kani_units"] = list(PROPS["C13"]["kani_units"]) + ["U46"]
 PROPS["C16"]["claim"] = PROPS["C16"]["claim"] + " Log::read_next (Kani, bounded; LogReader::next by contract) reports every failure to read a record header except a clean end of file, and never hands a log file that failed to read to the cleanup stage (which would truncate records that were not applied)."
 PROPS["C03"]["claim"] = PROPS["C03"]["claim"] + " Log::kill_logs (Kani, bounded) deletes no log file that is still waiting to be applied: the read queue is left on disk for replay at the next open."
+
+# ---------------------------------------------------------------- U48 / U49
+M_COLUMN.harnesses.append(H("u48_flush_covers_queued_index_tables", "U48", kind="bounded", shape="HashColumn::flush on a column with two older index tables queued for migration", bound="two queued index tables, no value tables; the per-table flush (msync) is a recorder"))
+for _n in (32, 33, 40):
+    M_COLUMN.harnesses.append(H("u49_hash_key_uniform_len%d" % _n, "U49", kind="bounded", shape="hash_key on a uniform column, key of %d arbitrary bytes, arbitrary salt, database versions 4..=current" % _n, bound="key lengths 32, 33, 40"))
+UNIT_META["U48"] = {"functions": ["column::HashColumn::flush"], "assumes": ["IndexTable::flush (msync of the mapping) replaced by a recorder"]}
+UNIT_META["U49"] = {"functions": ["column::hash_key (uniform-key branch, siphash 1-3 by siphasher: real code)"], "assumes": ["the zero-salt short cut compiled in by the test / instrumentation features is not part of the build Kani verifies"]}
+PROPS["C12"]["kani_units"] = list(PROPS["C12"]["kani_units"]) + ["U48"]
+PROPS["C01"]["kani_units"] = list(PROPS["C01"]["kani_units"]) + ["U49", "U22"]
+PROPS["C12"]["claim"] = PROPS["C12"]["claim"] + " HashColumn::flush (Kani, bounded) flushes the current index and every older index table still queued for migration (records applied during a growth write to them too)."
+PROPS["C01"]["claim"] = PROPS["C01"]["claim"] + " Keys (Kani, bounded lengths 32 / 33 / 40, contents and salt arbitrary): hash_key on a uniform-key column accepts every key of 32 bytes or more without panicking, keeps key bytes 16..32 and is a function of key and salt."
+PROPS["C01"]["does_not_cover"] = [x for x in PROPS["C01"]["does_not_cover"] if "hash_key" not in x] + ["hash_key for hashed (blake2) keys: a contract"]
